@@ -167,6 +167,29 @@ impl T {
             T::Thresh(..) => "thresh",
         }
     }
+    /// root fragment with its parameters and the roots of its children (dedupe key part)
+    pub fn root_detail(&self) -> String {
+        let own = match self {
+            T::Hash(k) => format!("hash{k}"),
+            T::Multi(k, n) | T::SMulti(k, n) | T::MultiA(k, n) | T::SMultiA(k, n) => format!("{}{}of{}", self.root(), k, n),
+            T::Thresh(k, v) => format!("thresh{}of{}", k, v.len()),
+            _ => self.root().to_string(),
+        };
+        let kids: Vec<String> = match self {
+            T::A(x) | T::S(x) | T::C(x) | T::D(x) | T::V(x) | T::J(x) | T::N(x) => vec![x.root_detail1()],
+            T::AndV(a, b) | T::AndB(a, b) | T::OrB(a, b) | T::OrD(a, b) | T::OrC(a, b) | T::OrI(a, b) => vec![a.root_detail1(), b.root_detail1()],
+            T::AndOr(a, b, c) => vec![a.root_detail1(), b.root_detail1(), c.root_detail1()],
+            T::Thresh(_, v) => v.iter().map(|x| x.root_detail1()).collect(),
+            _ => vec![],
+        };
+        format!("{}({})", own, kids.join(","))
+    }
+    fn root_detail1(&self) -> String {
+        match self {
+            T::Multi(k, n) | T::SMulti(k, n) | T::MultiA(k, n) | T::SMultiA(k, n) => format!("{}{}of{}", self.root(), k, n),
+            _ => self.root().to_string(),
+        }
+    }
     /// (keys, hashes, olders, afters)
     pub fn atoms(&self) -> (usize, usize, usize, usize) {
         fn add(a: (usize, usize, usize, usize), b: (usize, usize, usize, usize)) -> (usize, usize, usize, usize) { (a.0 + b.0, a.1 + b.1, a.2 + b.2, a.3 + b.3) }
@@ -365,7 +388,7 @@ pub fn enumerate<Ctx: ScriptContext>(fix: &Fix, ctx: u8, max_nodes: usize) -> Ve
         }
         let mut inst = Inst::new(fix, PALETTES[0]);
         if let Some(ms) = inst.build::<Ctx>(&t) {
-            let class = format!("{}|{}|{}", t.root(), ms.ty, kinds(&t));
+            let class = format!("{}|{}|{}", t.root_detail(), ms.ty, kinds(&t));
             if seen.insert(class.clone()) {
                 let base = spec::base_of(ms.ty.corr.base);
                 out.push(Entry { nodes: t.nodes(), t, class, base });
@@ -657,6 +680,11 @@ pub struct GShape {
     pub fig: Vec<(&'static str, String)>,
     pub nodes: usize,
     pub base: u8,
+    /// 0 = enumerated class representative, 1 = signed wrapper and_v(v:pk(K),X), 2 = type taken from the decoder
+    pub family: u8,
+    /// native encode/decode round-trip findings (C04)
+    pub decode_notes: Vec<String>,
+    pub decoded_ty: Option<(spec::S, String)>,
 }
 
 fn map_placeholder(fix: &Fix, p: &Placeholder<Pk>) -> Result<Option<El2>, String> {
@@ -891,6 +919,29 @@ pub fn build_shape<Ctx: CtxInfo>(fix: &Fix, t: &T, pal: Palette, with_rows: bool
             return Err("witness longer than MAXW".into());
         }
     }
+    // encode -> decode round trip with the real decoder (native; C04 / C06)
+    let mut decode_notes = vec![];
+    let mut decoded_ty = None;
+    let is_b = ms.ty.corr.base == miniscript::miniscript::types::Base::B;
+    match Miniscript::<Ctx::Key, Ctx>::decode_with_validation_params(&script, &miniscript::ValidationParams::MAX) {
+        _ if !is_b => {}
+        Ok(dec) => {
+            if dec.encode() != script {
+                decode_notes.push(format!("decode(encode(ms)) re-encodes differently: {:x} vs {:x}", dec.encode(), script));
+            }
+            if dec.ty != ms.ty {
+                decode_notes.push(format!("decoded miniscript has type {} but the encoded one has {}", dec.ty, ms.ty));
+                decoded_ty = Some((spec::of_type(dec.ty), format!("{}", dec.ty)));
+            }
+            if dec.script_size() != script.len() {
+                decode_notes.push(format!("decoded miniscript predicts script size {} but the script has {} bytes", dec.script_size(), script.len()));
+            }
+            if dec.ext.pk_cost != ms.ext.pk_cost || dec.ext.static_ops != ms.ext.static_ops || dec.ext.sat_data != ms.ext.sat_data || dec.ext.dissat_data != ms.ext.dissat_data {
+                decode_notes.push("decoded miniscript carries different static figures (ExtData) than the encoded one".to_string());
+            }
+        }
+        Err(e) => decode_notes.push(format!("encode(ms) does not decode: {e}")),
+    }
     let sd = ms.ext.sat_data;
     let dd = ms.ext.dissat_data;
     let u = |x: Option<usize>| x.map(|v| v.to_string()).unwrap_or("u32::MAX".into());
@@ -933,6 +984,9 @@ pub fn build_shape<Ctx: CtxInfo>(fix: &Fix, t: &T, pal: Palette, with_rows: bool
         fig,
         nodes: t.nodes(),
         base: spec::base_of(ms.ty.corr.base),
+        family: 0,
+        decode_notes,
+        decoded_ty,
     })
 }
 
@@ -1028,7 +1082,7 @@ pub fn hash_str(s: &str, seed: u64) -> u64 {
 /// Enumerate shapes of one context and build their artefacts.
 /// quick: all classes up to `nq` nodes; thorough: up to `nt` nodes with the part above `nq`
 /// sub-sampled by seed to `cap` shapes.
-pub fn select<Ctx: CtxInfo>(fix: &Fix, tier: &str, seed: u64, nq: usize, nt: usize, cap_quick: usize, cap: usize, with_rows: bool, only_b: bool) -> Sel {
+pub fn select<Ctx: CtxInfo>(fix: &Fix, tier: &str, seed: u64, nq: usize, nt: usize, cap_quick: usize, cap: usize, with_rows: bool, only_b: bool, fam_nodes: usize, fam_cap: usize) -> Sel {
     let maxn = if tier == "thorough" { nt } else { nq };
     let mut ents = enumerate::<Ctx>(fix, Ctx::ID, maxn);
     let enumerated = ents.len();
@@ -1052,12 +1106,41 @@ pub fn select<Ctx: CtxInfo>(fix: &Fix, tier: &str, seed: u64, nq: usize, nt: usi
     }
     let mut shapes = vec![];
     let mut errors = vec![];
+    // signed-wrapper family: and_v(v:pk(K),X) makes every path of X signed, so that the
+    // default sanity rules accept interesting disjunctions X (C03, C02 non-malleable clause)
+    if with_rows {
+        let mut fam = vec![];
+        for e in quick.iter().filter(|e| e.base == spec::B && e.nodes <= fam_nodes && e.t.atoms().0 < NKEYS) {
+            let t = T::AndV(Box::new(T::V(Box::new(T::C(Box::new(T::PkK))))), Box::new(e.t.clone()));
+            if let Ok(mut g) = build_shape::<Ctx>(fix, &t, PALETTES[0], true) {
+                if g.sane {
+                    g.family = 1;
+                    fam.push(g);
+                }
+            }
+        }
+        fam.sort_by_key(|g| hash_str(&g.name, 7));
+        fam.truncate(fam_cap);
+        shapes.extend(fam);
+    }
     for e in &quick {
         let (_, _, o, a) = e.t.atoms();
         let pals: &[usize] = if o >= 2 || a >= 2 { &[0, 1, 2] } else { &[0] };
         for &p in pals {
             match build_shape::<Ctx>(fix, &e.t, PALETTES[p], with_rows) {
-                Ok(g) => shapes.push(g),
+                Ok(g) => {
+                    if let Some((dty, dstr)) = g.decoded_ty.clone() {
+                        // what the decoder claims about the same script is checked against execution too
+                        if let Ok(mut g2) = build_shape::<Ctx>(fix, &e.t, PALETTES[p], false) {
+                            g2.ty = dty;
+                            g2.ty_str = dstr;
+                            g2.name = format!("decoded:{}", g2.name);
+                            g2.family = 2;
+                            shapes.push(g2);
+                        }
+                    }
+                    shapes.push(g)
+                }
                 Err(err) => {
                     if p == 0 {
                         errors.push(format!("{:?}: {}", e.t, err))
@@ -1108,25 +1191,25 @@ fn gen_shapes(fix: &Fix, tier: &str, seed: u64, out_dir: &str) {
     let mut errors = vec![];
     let (nq, nt) = (4usize, 6usize);
     {
-        let s = select::<Segwitv0>(fix, tier, seed, nq, nt, 400, 300, true, false);
+        let s = select::<Segwitv0>(fix, tier, seed, nq, nt, if tier == "thorough" { 1400 } else { 600 }, 800, true, false, 3, if tier == "thorough" { 300 } else { 100 });
         enumerated.insert("segwitv0", s.enumerated);
         errors.extend(s.errors);
         all.extend(s.shapes);
     }
     {
-        let s = select::<Tap>(fix, tier, seed, nq, nt, 400, 200, true, false);
+        let s = select::<Tap>(fix, tier, seed, nq, nt, if tier == "thorough" { 1300 } else { 400 }, 500, true, false, 3, if tier == "thorough" { 150 } else { 40 });
         enumerated.insert("tap", s.enumerated);
         errors.extend(s.errors);
         all.extend(s.shapes);
     }
     {
-        let s = select::<Legacy>(fix, tier, seed, 3, 5, 120, 100, true, false);
+        let s = select::<Legacy>(fix, tier, seed, 3, 5, if tier == "thorough" { 240 } else { 120 }, 200, true, false, 2, 20);
         enumerated.insert("legacy", s.enumerated);
         errors.extend(s.errors);
         all.extend(s.shapes);
     }
     {
-        let s = select::<BareCtx>(fix, tier, seed, 2, 4, 40, 50, true, false);
+        let s = select::<BareCtx>(fix, tier, seed, 2, 4, if tier == "thorough" { 60 } else { 40 }, 80, true, false, 0, 0);
         enumerated.insert("bare", s.enumerated);
         errors.extend(s.errors);
         all.extend(s.shapes);
@@ -1154,6 +1237,19 @@ fn gen_shapes(fix: &Fix, tier: &str, seed: u64, out_dir: &str) {
         }
         first = false;
         let _ = write!(info, "{{\"shape\": \"SH{}\", \"miniscript\": \"{}\", \"ctx\": {}, \"type\": \"{}\", \"script_hex\": \"{}\", \"rows\": {}, \"palette\": \"{}\"}}", i, json_escape(&g.name), g.ctx, g.ty_str, g.script_hex, g.rows.len(), g.pal.name);
+    }
+    info.push_str("], \"native_roundtrip_checked\": ");
+    let _ = write!(info, "{}", all.len());
+    info.push_str(", \"native_findings\": [");
+    let mut first = true;
+    for (i, g) in all.iter().enumerate() {
+        for n in &g.decode_notes {
+            if !first {
+                info.push(',');
+            }
+            first = false;
+            let _ = write!(info, "{{\"prop\": \"C04\", \"shape\": \"SH{}\", \"miniscript\": \"{}\", \"ctx\": {}, \"what\": \"{}\"}}", i, json_escape(&g.name), g.ctx, json_escape(n));
+        }
     }
     info.push_str("]}");
     write_out(out_dir, "shapes_info.json", &info);
